@@ -80,7 +80,8 @@ Inductive case :=
 | C6492 (pre : parent) (ua : N) (m : msg req) (corrupt same : bool) (post : parent) (out : outcome reply)
 | C8181 (pre : repo) (m : msg query) (corrupt same : bool) (post : repo) (out : outcome preply)
   (** one [ca_sync_parent] of a CA whose parent is local: the requests the parent state shows to have been
-      served (derived by the harness from the state difference), and as which child *)
+      served (derived by the harness from the state difference; a sync that ended in an error without any
+      trace at the parent is recorded as its first request, the list query), and as which child *)
 | CLocal (pre : parent) (cl : caller) (reqs : list req) (post : parent) (served_as : option handle).
 
 (** What the model may be given for an observed message: untouched bytes are intact; flipped bytes
@@ -111,7 +112,7 @@ Definition agrees (c : case) : bool :=
 
 (** ** Oracle 1: [c12_ok] - acted upon => signed by the key registered for the claimed sender and
     identical to what was signed; refused => state and history unchanged
-    (acts_only_for_registered_key, refused_no_change; local path: the full statement that F12a refutes). *)
+    (acts_only_for_registered_key, refused_no_change; local path: local_acts_only_for_registered_key, local_refused_no_change). *)
 Definition registered_key_is (st : parent) (c : handle) (k : key) : bool :=
   match aget c (p_children st) with Some ch => ch_id ch =? k | None => false end.
 Definition publisher_key_is (rp : repo) (h : handle) (k : key) : bool :=
@@ -135,7 +136,7 @@ Definition c12_ok (c : case) : bool :=
       end
   | CLocal pre cl _ post who =>
       match who with
-      | None => true
+      | None => parent_eqb pre post                       (* refused: nothing changes at the parent *)
       | Some c => registered_key_is pre c (cl_id cl)
       end
   end.
@@ -237,11 +238,15 @@ Fixpoint failing_from {A} (f : A -> bool) (i : N) (l : list A) : list N :=
   end.
 Definition failing {A} (f : A -> bool) (base : N) (l : list A) : list N := failing_from f base l.
 
-(** Self-test of the oracles on the F12a witness of IdentProofs.v (model-side): the local case is
-    explained by the model ([agrees]) and fails [c12_ok]. *)
+(** Self-test of the oracles on the F12a witness of IdentProofs.v (model-side). [f12a_case] is what the
+    originally pinned tree did (regression witness: no longer explained by the model, and failing
+    [c12_ok]); [f12a_repaired_case] is what the repaired tree does. *)
 Definition f12a_case : case :=
   CLocal (mkParent 1 10 [(0, mkRC (Some 15) [] [])] [(2, mkChild 20 3 [] false None)] 5)
          (mkCaller 3 99 2) [RList; RIssue 0 7 None true]
          (mkParent 1 10 [(0, mkRC (Some 15) [(7, mkIC 3 None)] [])]
                    [(2, mkChild 20 3 [(7, InUse 0)] false (Some (0, true)))] 6)
          (Some 2).
+Definition f12a_repaired_case : case :=
+  let p := mkParent 1 10 [(0, mkRC (Some 15) [] [])] [(2, mkChild 20 3 [] false None)] 5 in
+  CLocal p (mkCaller 3 99 2) [RList] p None.
